@@ -67,7 +67,7 @@ func Mutate(t *rapid.T, f *File) (*File, string) {
 		}
 		return ns[rapid.IntRange(0, len(ns)-1).Draw(t, "target")]
 	}
-	kind := rapid.SampledFrom([]string{"text", "text", "attr-value", "attr-rename", "attr-rename", "swap", "element-rename", "expr-to-attr", "attr-to-expr", "script-quote", "expr-to-script", "add-text", "drop-node", "wrap"}).Draw(t, "edit")
+	kind := rapid.SampledFrom([]string{"text", "text", "attr-value", "attr-rename", "attr-rename", "swap", "element-rename", "expr-to-attr", "attr-to-expr", "script-quote", "expr-to-script", "add-text", "drop-node", "wrap", "expr-replace", "expr-replace", "attr-expr-replace"}).Draw(t, "edit")
 	switch kind {
 	case "text":
 		n := pick(nodesOf(g, func(n *Node) bool { return n.Kind == "text" }))
@@ -122,10 +122,10 @@ func Mutate(t *rapid.T, f *File) (*File, string) {
 		}
 		for i := range n.Attrs {
 			if n.Attrs[i].Kind == "expr" && n.Attrs[i].E.Kind != "orerr" {
-				to := rapid.SampledFrom([]string{"style", "class", "href", "onclick", "data-renamed", "title", "action", "hx-on:click"}).Draw(t, "newname")
+				to := rapid.SampledFrom([]string{"style", "class", "href", "onclick", "data-renamed", "title", "action", "hx-on:click", "Class", "CLASS", "STYLE", "Title", "onClick", "Href"}).Draw(t, "newname")
 				kind += ":" + n.Attrs[i].Name + "->" + to
 				n.Attrs[i].Name = to
-				if to == "href" {
+				if strings.EqualFold(to, "href") {
 					n.Name = "a"
 				}
 				if to == "action" {
@@ -134,6 +134,61 @@ func Mutate(t *rapid.T, f *File) (*File, string) {
 				break
 			}
 		}
+	case "attr-expr-replace":
+		// the same, inside the value of an expression attribute
+		var cands []*Expr
+		for _, n := range nodesOf(g, func(n *Node) bool { return len(n.Attrs) > 0 }) {
+			for i := range n.Attrs {
+				if n.Attrs[i].Kind == "expr" && n.Attrs[i].E != nil {
+					for _, l := range leavesOf(n.Attrs[i].E) {
+						if l.Kind == "var" || l.Kind == "strlit" {
+							cands = append(cands, l)
+						}
+					}
+				}
+			}
+		}
+		if len(cands) == 0 {
+			return nil, ""
+		}
+		e := cands[rapid.IntRange(0, len(cands)-1).Draw(t, "attrleaf")]
+		if e.Kind == "var" {
+			if e.Str == "s1" {
+				e.Str = "s2"
+			} else {
+				e.Str = "s1"
+			}
+		} else {
+			e.Str += "E"
+		}
+	case "expr-replace":
+		// the plainest Go-level edit: one leaf of one Go expression becomes another value of the
+		// same type, wherever the expression stands (text, attribute, class list, condition, loop
+		// header, switch tag and case values, call argument, raw Go)
+		leaves := exprLeaves(g)
+		if len(leaves) == 0 {
+			return nil, ""
+		}
+		e := leaves[rapid.IntRange(0, len(leaves)-1).Draw(t, "leaf")]
+		switch e.Kind {
+		case "var":
+			if e.Str == "s1" {
+				e.Str = "s2"
+			} else {
+				e.Str = "s1"
+			}
+		case "bvar":
+			if e.Str == "b1" {
+				e.Str = "b2"
+			} else {
+				e.Str = "b1"
+			}
+		case "strlit":
+			e.Str = e.Str + "E"
+		case "intlit":
+			e.Num++
+		}
+		kind += ":" + e.Kind
 	case "swap":
 		ls := lists(g)
 		l := ls[rapid.IntRange(0, len(ls)-1).Draw(t, "list")]
@@ -206,4 +261,93 @@ func Mutate(t *rapid.T, f *File) (*File, string) {
 	}
 	Normalize(g)
 	return g, kind
+}
+
+// exprLeaves collects pointers to the variable and literal leaves of every Go expression of the file.
+func exprLeaves(f *File) []*Expr {
+	var out []*Expr
+	var expr func(e *Expr)
+	expr = func(e *Expr) {
+		if e == nil {
+			return
+		}
+		switch e.Kind {
+		case "var", "bvar", "strlit", "intlit":
+			out = append(out, e)
+		}
+		for i := range e.Args {
+			expr(&e.Args[i])
+		}
+	}
+	var attrs func(as []Attr)
+	attrs = func(as []Attr) {
+		for i := range as {
+			a := &as[i]
+			expr(a.E)
+			expr(a.Cond)
+			for j := range a.Items {
+				expr(a.Items[j].E)
+				expr(a.Items[j].Cond)
+			}
+			attrs(a.Then)
+			attrs(a.Else)
+		}
+	}
+	for _, l := range lists(f) {
+		for i := range *l {
+			n := &(*l)[i]
+			expr(n.E)
+			expr(n.Cond)
+			attrs(n.Attrs)
+			for j := range n.ElseIfs {
+				expr(&n.ElseIfs[j].Cond)
+			}
+			for j := range n.Cases {
+				for k := range n.Cases[j].Vals {
+					expr(&n.Cases[j].Vals[k])
+				}
+			}
+		}
+	}
+	return out
+}
+
+func leavesOf(e *Expr) []*Expr {
+	var out []*Expr
+	var walk func(e *Expr)
+	walk = func(e *Expr) {
+		switch e.Kind {
+		case "var", "bvar", "strlit", "intlit":
+			out = append(out, e)
+		}
+		for i := range e.Args {
+			walk(&e.Args[i])
+		}
+	}
+	walk(e)
+	return out
+}
+
+// RenameExprAttr renames one expression attribute of the file (if it has any) and reports whether
+// it did.
+func RenameExprAttr(t *rapid.T, f *File, names []string) bool {
+	ns := nodesOf(f, func(n *Node) bool {
+		for _, a := range n.Attrs {
+			if a.Kind == "expr" && a.E.Kind != "orerr" {
+				return true
+			}
+		}
+		return false
+	})
+	if len(ns) == 0 {
+		return false
+	}
+	n := ns[rapid.IntRange(0, len(ns)-1).Draw(t, "renameTarget")]
+	for i := range n.Attrs {
+		if n.Attrs[i].Kind == "expr" && n.Attrs[i].E.Kind != "orerr" {
+			n.Attrs[i].Name = rapid.SampledFrom(names).Draw(t, "renameTo")
+			return true
+		}
+	}
+	return false
 }
